@@ -161,7 +161,7 @@ def compile_props(ctx, pid):
         if b.startswith("Closed"):
             axs = []
         else:
-            axs = re.findall(r"^([A-Za-z_][A-Za-z0-9_'.]*)\s*:", b, re.M)
+            axs = [a for a in re.findall(r"^([A-Za-z_][A-Za-z0-9_'.]*)\s*:", b, re.M) if a != "Axioms"]
         bad = [a for a in axs if a not in ALLOWED_AXIOMS]
         ctx.assumptions[n] = axs
         if not ctx.ob(f"theorem {n}", "theorem", not bad, "axioms: " + ", ".join(axs)):
